@@ -134,6 +134,10 @@ func analyseErrUses(fn *ssa.Function) []*ErrUse {
 						if r.Op == token.EQL {
 							nn = b.Succs[1]
 						}
+						if !edgeOnly(b, nn) && returnsValue(nn, v) {
+							// the non-nil edge joins a block that returns the error itself: propagated
+							continue
+						}
 						if !edgeOnly(b, nn) {
 							u.Problems = append(u.Problems, fmt.Sprintf("non-nil edge of the error test joins other control flow at block %d (idiom not understood)", nn.Index))
 							continue
@@ -462,3 +466,22 @@ func erCheck(c *Ctx, fn *ssa.Function, o erOpts, ruleCheck, ruleWrap, ruleStop s
 
 var _ = constant.MakeInt64
 var _ types.Type
+
+// returnsValue: block b does nothing but return, and one of its (error) results is v.
+func returnsValue(b *ssa.BasicBlock, v ssa.Value) bool {
+	ret, ok := b.Instrs[len(b.Instrs)-1].(*ssa.Return)
+	if !ok {
+		return false
+	}
+	for _, in := range b.Instrs {
+		if _, isCall := in.(ssa.CallInstruction); isCall {
+			return false // something else happens first
+		}
+	}
+	for _, op := range resolvedResults(ret) {
+		if op == v && isErrorType(op.Type()) {
+			return true
+		}
+	}
+	return false
+}
